@@ -134,11 +134,16 @@ func (b *Buffer) Write(data []byte) (int, error) {
 	return len(data), nil
 }
 
-// setCheckStartOffset sets the offset that the next Write must start at.
-func (b *Buffer) setCheckStartOffset(offset int64) {
+// writeAt is like Write except that, unless offset is -1, the write is
+// refused when the data would not land at exactly that offset.
+func (b *Buffer) writeAt(data []byte, offset int64) (int, error) {
 	b.mu.Lock()
 	defer b.mu.Unlock()
-	b.checkStartOffset = offset
+	if offset != -1 && int64(len(b.buf)) != offset {
+		return 0, fmt.Errorf("invalid offset %d in resumed upload (actual offset %d): %w", offset, len(b.buf), ociregistry.ErrRangeInvalid)
+	}
+	b.buf = append(b.buf, data...)
+	return len(data), nil
 }
 
 func newUUID() string {
